@@ -6,16 +6,16 @@
    coap_io_prepare_io, ACK / RST branches of coap_dispatch). *)
 From LibcoapV Require Import Base.Tactics Sched.FixedPoint Sched.FixedPointProofs
   Sched.SendQueue Sched.SendQueueProofs Sched.Retransmit Sched.RetransmitProofs
-  Sched.RetransmitTimeProofs Sched.RetransmitSpacingProofs.
+  Sched.RetransmitTimeProofs Sched.RetransmitSpacingProofs Sched.RetransmitProvenanceProofs.
 From Coq Require Import Sorting.Permutation.
 Local Open Scope Z_scope.
 
 (* ---------------------------------------------------------------- T is drawn from the range *)
-(* For every random byte and all settings the 16-bit Q.6 representation can hold (integer part
-   up to 1022, any fraction): lo <= T <= hi where lo / hi are ACK_TIMEOUT and
-   ACK_TIMEOUT * ACK_RANDOM_FACTOR computed from the settings quantised to 1/64; the distance of
-   lo / hi from the unquantised values in ms is bounded explicitly; r = 0 gives lo, r = 255 gives
-   hi (factor <= 3.0). *)
+(* For every random byte and ALL settings the setters accept (integer part 1..65535, fraction
+   0..999): lo <= T <= hi where lo / hi are ACK_TIMEOUT and ACK_TIMEOUT * ACK_RANDOM_FACTOR
+   computed from the settings quantised to 1/64 s; the distance of lo / hi from the unquantised
+   values in ms is bounded explicitly; r = 0 gives lo, r = 255 gives hi (factor <= 3.0); T is the
+   exact fixed-point value unless that exceeds UINT_MAX ticks (then UINT_MAX, 49.7 days). *)
 Theorem C06_timeout_range : forall at_ip at_fp arf_ip arf_fp r,
   fp_setting_ok at_ip at_fp -> fp_setting_ok arf_ip arf_fp -> 0 <= r <= 255 ->
   let A := fp_Q at_ip at_fp in
@@ -25,7 +25,8 @@ Theorem C06_timeout_range : forall at_ip at_fp arf_ip arf_fp r,
   fp_ms at_ip at_fp - 8 <= fp_lo A <= fp_ms at_ip at_fp + 8 /\
   1000 * fp_hi A F <= (fp_ms at_ip at_fp + 8) * (fp_ms arf_ip arf_fp + 8) + 8313 /\
   fp_calc_timeout at_ip at_fp arf_ip arf_fp 0 = fp_lo A /\
-  (F <= 192 -> fp_calc_timeout at_ip at_fp arf_ip arf_fp 255 = fp_hi A F).
+  (F <= 192 -> fp_calc_timeout at_ip at_fp arf_ip arf_fp 255 = fp_hi A F) /\
+  T = Z.min (fp_calc_plain A F r) fp_uint_max.
 Proof. exact fp_timeout_range. Qed.
 Print Assumptions C06_timeout_range.
 
@@ -52,22 +53,28 @@ Theorem C06_timeout_default_ends :
 Proof. exact fp_timeout_default_ends. Qed.
 Print Assumptions C06_timeout_default_ends.
 
-(* non-vacuity of the hypothesis: the defaults and every integer part up to 1022 qualify *)
+(* the hypothesis is exactly what coap_session_set_ack_timeout / _ack_random_factor accept *)
 Theorem C06_setting_ok_nonvacuous :
   fp_setting_ok 2 0 /\ fp_setting_ok 1 500 /\
-  (forall ip fp, 1 <= ip <= 1022 -> 0 <= fp < 1000 -> fp_setting_ok ip fp).
-Proof. exact (conj (proj1 fp_setting_ok_default) (conj (proj2 fp_setting_ok_default) fp_setting_ok_1022)). Qed.
+  (forall ip fp, fp_setting_ok ip fp <-> (0 < ip < 65536 /\ 0 <= fp < 1000)).
+Proof. exact fp_setting_ok_nonvacuous. Qed.
 Print Assumptions C06_setting_ok_nonvacuous.
 
-(* "all session settings" does NOT hold: the setters accept integer parts up to 65535, the
-   uint16_t cast of the Q.6 value wraps from 1024.0 on; ACK_TIMEOUT = 1024.000 s gives T = 0.
-   Replayed on the library: `calc 1024 0 1 500 255` (corpus/C06/known.case). *)
-Theorem C06_timeout_range_refuted : exists at_ip at_fp arf_ip arf_fp r,
-  1 <= at_ip < 65536 /\ 0 <= at_fp < 1000 /\ 1 <= arf_ip < 65536 /\ 0 <= arf_fp < 1000 /\
-  0 <= r <= 255 /\
-  fp_calc_timeout at_ip at_fp arf_ip arf_fp r < fp_ms at_ip at_fp - 8.
-Proof. exact fp_timeout_range_refuted. Qed.
-Print Assumptions C06_timeout_range_refuted.
+(* Before /repo ca7875d the Q.6 values were cast to uint16_t:
+   ACK_TIMEOUT = 1024.000 s gave T = 0 (finding F06-4, fixed; replay `calcrow 1024 0 1 500`);
+   where nothing wrapped the old and the new function agree. *)
+Theorem C06_timeout_range_old_refuted : exists at_ip at_fp arf_ip arf_fp r,
+  fp_setting_ok at_ip at_fp /\ fp_setting_ok arf_ip arf_fp /\ 0 <= r <= 255 /\
+  fp_calc_timeout_old at_ip at_fp arf_ip arf_fp r < fp_ms at_ip at_fp - 8.
+Proof. exact fp_timeout_range_old_refuted. Qed.
+Print Assumptions C06_timeout_range_old_refuted.
+
+Theorem C06_timeout_old_agrees : forall at_ip at_fp arf_ip arf_fp r,
+  fp_setting_ok at_ip at_fp -> fp_setting_ok arf_ip arf_fp -> 0 <= r <= 255 ->
+  fp_Qraw at_ip at_fp < 65536 -> fp_Qraw arf_ip arf_fp < 65536 ->
+  fp_calc_timeout_old at_ip at_fp arf_ip arf_fp r = fp_calc_timeout at_ip at_fp arf_ip arf_fp r.
+Proof. exact fp_calc_old_eq. Qed.
+Print Assumptions C06_timeout_old_agrees.
 
 (* ---------------------------------------------------------------- the send queue, every queue *)
 (* insertion = ordered insertion on absolute deadlines ... *)
@@ -221,6 +228,29 @@ Theorem C06_T_drawn_once : forall st s m b cfg r,
    RoSent m].
 Proof. exact (fun st s m b cfg r => eq_refl). Qed.
 Print Assumptions C06_T_drawn_once.
+
+(* Every datagram of every trace is the unchanged byte string of a submitted message, sent on the
+   session it was submitted on, scheduled with T = coap_calc_timeout(that session's settings, the
+   byte drawn at submission) - so (C06_timeout_range) every T of every trace lies in
+   [ACK_TIMEOUT, ACK_TIMEOUT * ACK_RANDOM_FACTOR] of its session, at Q.6 resolution. *)
+Theorem C06_tx_provenance : forall t0 evs t u s b c T,
+  In (RoTx t u s b c T) (snd (rt_run (rt_init t0) evs)) ->
+  exists m cfg r, In (RtSend s m b cfg r) evs /\ T = rt_cfg_T cfg r.
+Proof. exact rt_tx_provenance. Qed.
+Print Assumptions C06_tx_provenance.
+
+Theorem C06_tx_timeout_in_range : forall t0 evs t u s b c T,
+  (forall s' m b' cfg r, In (RtSend s' m b' cfg r) evs ->
+     fp_setting_ok (rc_at_ip cfg) (rc_at_fp cfg) /\ fp_setting_ok (rc_arf_ip cfg) (rc_arf_fp cfg) /\
+     0 <= r <= 255) ->
+  In (RoTx t u s b c T) (snd (rt_run (rt_init t0) evs)) ->
+  exists m cfg r, In (RtSend s m b cfg r) evs /\
+    fp_lo (fp_Q (rc_at_ip cfg) (rc_at_fp cfg)) <= T <=
+    fp_hi (fp_Q (rc_at_ip cfg) (rc_at_fp cfg)) (fp_Q (rc_arf_ip cfg) (rc_arf_fp cfg)) /\
+    fp_ms (rc_at_ip cfg) (rc_at_fp cfg) - 8 <= T /\
+    1000 * T <= (fp_ms (rc_at_ip cfg) (rc_at_fp cfg) + 8) * (fp_ms (rc_arf_ip cfg) (rc_arf_fp cfg) + 8) + 8313.
+Proof. exact rt_tx_timeout_in_range. Qed.
+Print Assumptions C06_tx_timeout_in_range.
 
 (* ---------------------------------------------------------------- one outcome *)
 (* For every event sequence - any number of messages and sessions, ACK / RST at any time,
